@@ -1,5 +1,6 @@
 /- Line-protocol driver for C15 (path algebra, CMap probe paths, image output paths). -/
 import PdfVerif.Model.Path
+import PdfVerif.Model.Image
 
 open PdfVerif PdfVerif.Path
 
@@ -22,6 +23,10 @@ def step (line : String) : String :=
       let ps := cmapProbes ds n
       if ps.isEmpty then "-" else ",".intercalate (ps.map hexOrDash)
     | _, _ => "bad-op"
+  | ["rawext", b, w, h] =>
+    match b.toInt?, w.toInt?, h.toInt? with
+    | some b, some w, some h => hexOrDash (Image.rawExtZ b w h)
+    | _, _, _ => "bad-op"
   | ["image", outdir, name, ext, existing] =>
     match bytesOfHex outdir, bytesOfHex name, bytesOfHex ext, namesOf existing with
     | some o, some n, some e, some ex =>
